@@ -23,8 +23,9 @@ def discharge(ob, quick_ms=3000, cli_timeout_s=20, all_solvers=False, seed=0, wo
     return r
 
 
-def verify_contract(verifier, cls, **kw):
-    """Returns dict(status=..., obligations=[...])"""
+def verify_contract(verifier, cls, prop=None, **kw):
+    """Returns dict(status=..., obligations=[...]).  With `prop`, only the obligations deciding that property
+    are kept (and discharged)."""
     t0 = time.time()
     n0 = len(verifier.obligations)
     try:
@@ -36,6 +37,8 @@ def verify_contract(verifier, cls, **kw):
     except PathLimit as e:
         status, err = "pathlimit", str(e)
     obs = verifier.obligations[n0:]
+    if prop is not None:
+        obs = [ob for ob in obs if prop in ob.serves]
     discharge_all(obs, **kw)
     return dict(status=status, error=err, obligations=obs, time=time.time() - t0,
                 stats=verifier.stats.get((cls.file, cls.qualname)))
